@@ -19,7 +19,12 @@ import os
 import re
 from fractions import Fraction
 
-from lib.framework import Check, enc, dec
+import collections
+import hashlib
+import multiprocessing
+import subprocess
+
+from lib.framework import Check, enc, dec, LEAN
 
 LEN_UNITS = ['cm', 'mm', 'in', 'px', 'pc', 'pt', 'em', 'ex']
 UNITS = LEN_UNITS + ['', '%', 'deg', 'rad', 'grad', 'ms', 's', 'hz', 'khz', 'dpi', 'dpcm', 'rem', 'vw', 'vh',
@@ -98,6 +103,90 @@ def read_number(text):
     return m.group(1), m.group(2), m.group(3), m.group(4)
 
 
+class Collector:
+    """stands in for the framework's Ctx inside a worker process; merged into the real one by the parent"""
+    def __init__(self, model_ok, verif, tier_counts):
+        self.model_ok, self.verif, self.tier_counts = model_ok, verif, tier_counts
+        self.evaluations = 0
+        self.keys = set()
+        self.dist = collections.Counter()
+        self.disagreements, self.violations, self.samples = [], [], []
+        self.known_hits = collections.Counter()
+        self.traces = 0
+        self.notes = {}
+
+    def n(self, quick, thorough):
+        return thorough if self.tier_counts == 'thorough' else quick
+
+    def case(self, key=None, nontrivial=True, sample=None, kind=None):
+        self.evaluations += 1
+        if nontrivial and key is not None:
+            self.keys.add(hashlib.blake2b(repr(key).encode('utf-8', 'surrogatepass'), digest_size=8).digest())
+        if kind:
+            self.dist[kind] += 1
+        if sample is not None and len(self.samples) < 2:
+            self.samples.append(sample)
+
+    def count(self, kind, k=1):
+        self.dist[kind] += k
+
+    def disagree(self, what, inp, impl, model):
+        if len(self.disagreements) < 20:
+            self.disagreements.append((what, inp, impl, model))
+
+    def violate(self, clause, witness, detail=None, known=None):
+        if known:
+            self.known_hits[known] += 1
+        elif len(self.violations) < 20:
+            self.violations.append((clause, witness, detail))
+
+    def driver(self, lines):
+        if not lines:
+            return []
+        path = os.path.join(LEAN, '.lake', 'build', 'bin', 'drv_c18')
+        p = subprocess.run([path], input=('\n'.join(lines) + '\n').encode('ascii'), stdout=subprocess.PIPE, timeout=900)
+        out = p.stdout.decode('ascii', 'replace').split('\n')
+        if out and out[-1] == '':
+            out.pop()
+        if p.returncode != 0 or len(out) != len(lines):
+            raise RuntimeError('driver drv_c18: rc=%s, %d lines in, %d out' % (p.returncode, len(lines), len(out)))
+        self.traces += len(lines)
+        return out
+
+    def merge_into(self, ctx):
+        ctx.evaluations += self.evaluations
+        if len(ctx.nontrivial) < 2_000_000:
+            ctx.nontrivial |= self.keys
+        ctx.dist.update(self.dist)
+        ctx.known_hits.update(self.known_hits)
+        ctx.traces += self.traces
+        for d in self.disagreements:
+            ctx.disagree(*d)
+        for v in self.violations:
+            ctx.violate(*v)
+        for smp in self.samples:
+            if len(ctx.samples) < 12:
+                ctx.samples.append(smp)
+
+
+def _exh_worker(args):
+    k, part, parts, model_ok, verif, tier_counts = args
+    col = Collector(model_ok, verif, tier_counts)
+    chk = C18()
+    cu = cssutils_()
+    chk.cu = cu
+    batch = []
+    for i, comp in enumerate(chk.gen_exhaustive(k)):
+        if i % parts != part:
+            continue
+        batch.append((None, comp))
+        if len(batch) >= 20000:
+            chk.number_batch(col, cu, batch, [DEFAULT, MINI], 'exh')
+            batch = []
+    chk.number_batch(col, cu, batch, [DEFAULT, MINI], 'exh')
+    return col
+
+
 class C18(Check):
     id = 'C18'
     props_module = 'CssVerif.Props.C18'
@@ -128,6 +217,16 @@ class C18(Check):
             'whose written form differs from the input text or whose value is accessed through a typed accessor')
 
     # ------------------------------------------------------------------------------------------
+    def search(self, ctx):
+        """an obligation or the correspondence broke and the first pass found no failing input: look harder with
+        three more passes over fresh random streams (the exhaustive parts have been run already)"""
+        ctx.search_mode = True
+        for i in range(3):
+            self.search_pass = i + 1
+            self.run(ctx)
+            if ctx.violations:
+                return
+
     def translate(self, ctx):
         from gen import c18_tables
         return {'CssVerif/Gen/C18Tables.lean': c18_tables.generate(ctx.repo)}
@@ -136,7 +235,7 @@ class C18(Check):
     def run(self, ctx):
         cu = cssutils_()
         self.cu = cu
-        rng = ctx.sub_rng('c18')
+        rng = ctx.sub_rng('c18' + ('/search%d' % getattr(self, 'search_pass', 0) if getattr(ctx, 'search_mode', False) else ''))
         self.check_pref_defaults(ctx, cu)
         self.run_corpus(ctx, cu)
         self.numbers(ctx, cu, rng)
@@ -148,6 +247,7 @@ class C18(Check):
         self.too_large(ctx, cu)
         self.strings(ctx, cu, rng)
         self.urls(ctx, cu, rng)
+        self.separators(ctx, cu, rng)
 
     # -- defaults ----------------------------------------------------------------------------------
     def check_pref_defaults(self, ctx, cu):
@@ -217,13 +317,23 @@ class C18(Check):
 
     def numbers(self, ctx, cu, rng):
         k = ctx.n(2, 3)
-        batch = []
-        for comp in self.gen_exhaustive(k):
-            batch.append((None, comp))
-            if len(batch) >= 60000:
-                self.number_batch(ctx, cu, batch, [DEFAULT, MINI], 'exh')
-                batch = []
-        self.number_batch(ctx, cu, batch, [DEFAULT, MINI], 'exh')
+        if getattr(ctx, 'search_mode', False):
+            k = 2
+        if k <= 2:
+            batch = []
+            for comp in self.gen_exhaustive(k):
+                batch.append((None, comp))
+                if len(batch) >= 60000:
+                    self.number_batch(ctx, cu, batch, [DEFAULT, MINI], 'exh')
+                    batch = []
+            self.number_batch(ctx, cu, batch, [DEFAULT, MINI], 'exh')
+        else:
+            # 3.7 million literals: split over worker processes, each with its own model driver
+            parts = max(2, min(14, (os.cpu_count() or 4) - 2))
+            with multiprocessing.get_context('fork').Pool(parts) as pool:
+                for col in pool.imap_unordered(_exh_worker, [(k, i, parts, ctx.model_ok, ctx.verif, ctx.tier_counts)
+                                                             for i in range(parts)]):
+                    col.merge_into(ctx)
         ctx.notes['numbers_exhaustive_digits'] = '<=%d+%d' % (k, k)
         rnd = [(None, c) for c in self.gen_random(rng, ctx.n(6000, 150000))]
         self.number_batch(ctx, cu, rnd, ALL_PREFS if ctx.tier_counts != 'thorough' else [DEFAULT, OLZ, MINI, ALL_PREFS[5]], 'rnd')
@@ -675,6 +785,82 @@ class C18(Check):
             if m != 'OK ' + enc(txt):
                 ctx.disagree('Value(STRING).cssText', {'text': src, 'value': r, 'prefs': repr(ps)}, txt, m)
 
+    # -- order and separators of the components of a property value (T18.5, implementation side) -------
+    COMPONENTS = [('10px', '10px'), ('+0.50em', '+0.5em'), ('-0.0pt', '0'), ('0%', '0%'), ('1.10', '1.1'), ('red', 'red'),
+                  ('#aabbcc', '#abc'), ('#ABCDEF', '#ABCDEF'), ('"a b"', '"a b"'), ("'x'", '"x"'), ('url(a.png)', 'url(a.png)'),
+                  ('rgb(1,2,3)', 'rgb(1, 2, 3)'), ('hsl(0, 0%, 0%)', 'hsl(0, 0%, 0%)'), ('bold', 'bold'), ('Arial', 'Arial'),
+                  ('-5', '-5'), ('00.5', '0.5'), ('u+0-7f', 'u+0-7f'), ('inherit', 'inherit'), ('2E3', '2e3')]
+
+    @staticmethod
+    def split_top(text):
+        """components and separators (' ', ',', '/') at nesting depth 0, outside strings; independent reader"""
+        comps, seps, cur, depth, q, i = [], [], '', 0, None, 0
+        while i < len(text):
+            c = text[i]
+            if q:
+                cur += c
+                if c == '\\':
+                    cur += text[i + 1:i + 2]
+                    i += 1
+                elif c == q:
+                    q = None
+            elif c in '"\'':
+                q = c
+                cur += c
+            elif c == '(':
+                depth += 1
+                cur += c
+            elif c == ')':
+                depth -= 1
+                cur += c
+            elif depth == 0 and c in ' ,/':
+                j = i
+                while j < len(text) and text[j] in ' ,/':
+                    j += 1
+                run = text[i:j].replace(' ', '')
+                if len(run) > 1:
+                    return None
+                comps.append(cur)
+                seps.append(run or ' ')
+                cur = ''
+                i = j
+                continue
+            else:
+                cur += c
+            i += 1
+        comps.append(cur)
+        return comps, seps
+
+    def separators(self, ctx, cu, rng):
+        from cssutils.css import PropertyValue
+        for _ in range(ctx.n(2500, 40000)):
+            n = rng.randint(1, 6)
+            parts = [rng.choice(self.COMPONENTS) for _ in range(n)]
+            seps = [rng.choice([' ', ' ', ',', '/']) for _ in range(n - 1)]
+            src = parts[0][0]
+            for sp, pt in zip(seps, parts[1:]):
+                src += rng.choice(['', ' ', '  ']) + sp + rng.choice(['', ' ']) + pt[0] if sp != ' ' else rng.choice([' ', '  ', '\t', ' \n ']) + pt[0]
+            pv = PropertyValue(src)
+            w0 = {'call': 'PropertyValue(text).cssText', 'text': src}
+            ctx.case(key=('sep', src), nontrivial=n > 1, kind='separators:%d' % n, sample={'value': src, 'written': pv.cssText})
+            if not pv.wellformed or pv.length != n:
+                ctx.violate('a list of n components separated by space, comma or slash is a value with n components',
+                            w0, {'wellformed': pv.wellformed, 'length': pv.length, 'want': n})
+                continue
+            for ps in (DEFAULT, MINI):
+                old = ps.apply(cu)
+                try:
+                    out = pv.cssText
+                finally:
+                    ps.restore(cu, old)
+                got = self.split_top(out)
+                want_comps = [p_[1] if not ps.olz else p_[1].replace('0.5', '.5') for p_ in parts]
+                if ps.lis == '':
+                    want_comps = [c.replace(', ', ',') for c in want_comps]
+                if got is None or got[1] != seps or got[0] != want_comps:
+                    ctx.violate('the components are written in the same order with the same separators (space, comma, slash)',
+                                dict(w0, prefs=repr(ps), written=out), {'read_back': repr(got), 'want': repr((want_comps, seps))})
+
     # -- URLs ----------------------------------------------------------------------------------------
     def render_url_unquoted(self, rng, content):
         """-> text; sets self.last_hexquote_after_bs and self.last_spell (per character: raw / hex / simple)"""
@@ -930,13 +1116,12 @@ class C18(Check):
                     ctx.violate('hash shortening is lossless: the written hash has the same channels',
                                 {'call': 'ColorValue(text).cssText', 'text': t, 'prefs': repr(ps)}, {'written': w})
                     continue
-                can = len(body) == 6 and body[0] == body[1] and body[2] == body[3] and body[4] == body[5]
-                exp = '#' + body[0] + body[2] + body[4] if (can and ps.mch) else t
-                if w != exp:
-                    ctx.violate('a hash is shortened exactly when minimizeColorHash is set and the three digit pairs '
-                                'are equal, and is otherwise written as it is',
-                                {'call': 'ColorValue(text).cssText', 'text': t, 'prefs': repr(ps)},
-                                {'written': w, 'want': exp})
+                # lossless is what C18 asks for (whether a shortenable hash IS shortened is C06): the written hash is
+                # the source hash, or - only with minimizeColorHash - a three-digit form of a six-digit hash
+                if w != t and not (ps.mch and len(body) == 6 and len(wb) == 3):
+                    ctx.violate('a hash is written as it is, or (only with minimizeColorHash) as the short form of a '
+                                'six-digit hash with the same channels',
+                                {'call': 'ColorValue(text).cssText', 'text': t, 'prefs': repr(ps)}, {'written': w})
 
     # -- colour keywords ---------------------------------------------------------------------------
     def keywords(self, ctx, cu, rng):
